@@ -185,6 +185,16 @@ func envInt(name string, def int64) int64 {
 	return def
 }
 
+// outDir is where evidence and replay files go: the verification directory, or VERIF_OUT_DIR when
+// the check is pointed at a scratch copy of the repository (so that committed evidence only ever
+// describes runs against /repo itself).
+func outDir(c *Ctx) string {
+	if d := os.Getenv("VERIF_OUT_DIR"); d != "" {
+		return d
+	}
+	return c.VerifDir
+}
+
 func verifDir() string {
 	if d := os.Getenv("VERIF_DIR"); d != "" {
 		return d
@@ -874,7 +884,7 @@ func (c *Ctx) finish() {
 			knownHits[strings.TrimPrefix(k, "known_extra:")] += int(n)
 		}
 	}
-	os.MkdirAll(filepath.Join(c.VerifDir, "replays"), 0o755)
+	os.MkdirAll(filepath.Join(outDir(c), "replays"), 0o755)
 	var lines []string
 	for i := range c.viol {
 		v := &c.viol[i]
@@ -885,7 +895,7 @@ func (c *Ctx) finish() {
 		}
 		unknown++
 		h := sha256.Sum256([]byte(v.Class + "|" + v.Key + "|" + v.Family + "|" + strconv.Itoa(v.Index)))
-		path := filepath.Join(c.VerifDir, "replays", c.Prop+"-"+hex.EncodeToString(h[:6])+".json")
+		path := filepath.Join(outDir(c), "replays", c.Prop+"-"+hex.EncodeToString(h[:6])+".json")
 		b, _ := json.MarshalIndent(v, "", " ")
 		os.WriteFile(path, b, 0o644)
 		v.Replay = path
@@ -950,8 +960,8 @@ func (c *Ctx) finish() {
 			"coverage": cov, "assumptions": c.Assume, "wall_s": wall, "violations": unknown,
 		}
 		b, _ := json.MarshalIndent(ev, "", " ")
-		os.MkdirAll(filepath.Join(c.VerifDir, "evidence"), 0o755)
-		os.WriteFile(filepath.Join(c.VerifDir, "evidence", c.Prop+".json"), b, 0o644)
+		os.MkdirAll(filepath.Join(outDir(c), "evidence"), 0o755)
+		os.WriteFile(filepath.Join(outDir(c), "evidence", c.Prop+".json"), b, 0o644)
 	}
 
 	var keys []string
